@@ -21,6 +21,8 @@ Interfaces:
 Implementation: Simple text extraction and pattern matching
 """
 
+from functools import lru_cache
+
 from src.core.base import BaseLintContext
 from src.core.constants import split_lines
 from src.core.types import Violation
@@ -46,6 +48,7 @@ def get_violation_line(violation: Violation, context: BaseLintContext) -> str | 
     return lines[violation.line - 1].lower()
 
 
+@lru_cache(maxsize=256)
 def has_python_noqa(line_text: str) -> bool:
     """Check if line has Python-style noqa directive.
 
@@ -58,6 +61,7 @@ def has_python_noqa(line_text: str) -> bool:
     return "# noqa" in line_text
 
 
+@lru_cache(maxsize=256)
 def has_typescript_noqa(line_text: str) -> bool:
     """Check if line has TypeScript-style noqa directive.
 
